@@ -1,8 +1,8 @@
 #!/bin/sh
-# usage: seeded_eval2.sh <ID> [extra props...]  - round 2: /tmp/seeded_out2/<ID> -> /verif/seeded/<ID>b
+# usage: seeded_eval2.sh <ID> [extra props...]  - round 2: ${SEEDSRC:-/tmp/seeded_out2}/<ID> -> /verif/seeded/<ID>b
 ID=$1; shift
-SRC=/tmp/seeded_out2/$ID
-DST=/verif/seeded/${ID}b
+SRC=${SEEDSRC:-/tmp/seeded_out2}/$ID
+DST=/verif/seeded/${ID}${SUFFIX:-b}
 mkdir -p $DST
 cp $SRC/patch.diff $SRC/demo.py $SRC/meta.json $DST/ 2>/dev/null
 /verif/tools/seeded.py confirm $DST > $DST/confirm.json 2>&1
